@@ -135,20 +135,24 @@ def _check(cname, n, pairs, rb, pb, has_ts, tb, ra, pa, ta, rbd, pbd, tbd):
     return None
 
 
-def crg3(rb, pb, has_ts, tb):
-    return _check("CRG", 3, PAIRS3, rb, pb, has_ts, tb, 0, 0, 0, 0, 0, 0)
+def _bits(kw, name, n):
+    return sum((1 << i) for i in range(n) if kw.get(f"{name}{i}"))
 
 
-def scrg3(rb, pb, has_ts, tb, ra, pa, ta, rbd, pbd, tbd):
-    return _check("SCRG", 3, PAIRS3, rb, pb, has_ts, tb, ra, pa, ta, rbd, pbd, tbd)
+def crg3(has_ts, **kw):
+    return _check("CRG", 3, PAIRS3, _bits(kw, "r", 3), _bits(kw, "p", 3), has_ts, _bits(kw, "t", 3), 0, 0, 0, 0, 0, 0)
 
 
-def crg4(rb, pb, has_ts, tb):
-    return _check("CRG", 4, PAIRS4, rb, pb, has_ts, tb, 0, 0, 0, 0, 0, 0)
+def scrg3(has_ts, ra, pa, ta, rbd, pbd, tbd, **kw):
+    return _check("SCRG", 3, PAIRS3, _bits(kw, "r", 3), _bits(kw, "p", 3), has_ts, _bits(kw, "t", 3), ra, pa, ta, rbd, pbd, tbd)
 
 
-def scrg4(rb, pb, has_ts, tb, ra, pa, ta, rbd, pbd, tbd):
-    return _check("SCRG", 4, PAIRS4, rb, pb, has_ts, tb, ra, pa, ta, rbd, pbd, tbd)
+def crg4(has_ts, **kw):
+    return _check("CRG", 4, PAIRS4, _bits(kw, "r", 4), _bits(kw, "p", 4), has_ts, _bits(kw, "t", 4), 0, 0, 0, 0, 0, 0)
+
+
+def scrg4(has_ts, ra, pa, ta, rbd, pbd, tbd, **kw):
+    return _check("SCRG", 4, PAIRS4, _bits(kw, "r", 4), _bits(kw, "p", 4), has_ts, _bits(kw, "t", 4), ra, pa, ta, rbd, pbd, tbd)
 
 
 def sn2(pr, pp, pt, lig_r, lig_p):
@@ -185,27 +189,42 @@ def sn2(pr, pp, pt, lig_r, lig_p):
     return None
 
 
+def _bond_params(n):
+    p = {}
+    for nm in ("r", "p", "t"):
+        for i in range(n):
+            p[f"{nm}{i}"] = "bool"
+    return p
+
+
+def _bond_pre(n):
+    # TS extra bits only where neither R nor P has the bond (canonical); no TS bits without a TS
+    return [f"not t{i} or (has_ts and not r{i} and not p{i})" for i in range(n)]
+
+
 def plan(tier, seed):
     units = []
-    sub = "(tb & ~(rb | pb)) == tb"       # TS extra bits only where neither R nor P has the bond (canonical)
-    base = {"rb": (0, 8), "pb": (0, 8), "has_ts": "bool", "tb": (0, 8)}
-    pre = [sub, "has_ts or tb == 0"]
+    base = dict(_bond_params(3))
+    base["has_ts"] = "bool"
+    pre = _bond_pre(3)
     units.append(Sel(name="crg3", func="vp.props.C08:crg3", params=dict(base), pre=list(pre), shard_by=[], timeout=1200))
     sp = dict(base)
     sp.update({"ra": (0, 4), "pa": (0, 4), "ta": (0, 4), "rbd": (0, 4), "pbd": (0, 4), "tbd": (0, 4)})
-    spre = list(pre) + ["has_ts or (ta == 0 and tbd == 0)", "rbd == 0 or (rb & 1)", "pbd == 0 or (pb & 1)", "tbd == 0 or ((rb | pb | tb) & 1)"]
+    spre = list(pre) + ["has_ts or (ta == 0 and tbd == 0)", "rbd == 0 or r0", "pbd == 0 or p0", "tbd == 0 or r0 or p0 or t0"]
     if tier == "quick":
-        spre += ["rbd in (0, 1, 2)", "pbd in (0, 1, 3)", "tbd in (0, 1)", "ra + pa + ta == 0 or rbd + pbd + tbd == 0", "tb in (0, 4) or ta + tbd == 0",
-                 "ta in (0, 1, 3)", "rb in (0, 1, 3, 5, 7) or ra + pa + rbd + pbd == 0"]
+        spre += ["rbd in (0, 1, 2)", "pbd in (0, 1, 3)", "tbd in (0, 1)", "ra + pa + ta == 0 or rbd + pbd + tbd == 0", "(not t0 and not t1) or ta + tbd == 0",
+                 "ta in (0, 1, 3)", "(r0 or not r1) or ra + pa + rbd + pbd == 0"]
     units.append(Sel(name="scrg3", func="vp.props.C08:scrg3", params=sp, pre=spre, shard_by=["has_ts"], timeout=1500))
     if tier == "thorough":
-        b4 = {"rb": (0, 16), "pb": (0, 16), "has_ts": "bool", "tb": (0, 16)}
-        units.append(Sel(name="crg4", func="vp.props.C08:crg4", params=dict(b4), pre=list(pre), shard_by=[], timeout=1200))
+        b4 = dict(_bond_params(4))
+        b4["has_ts"] = "bool"
+        units.append(Sel(name="crg4", func="vp.props.C08:crg4", params=dict(b4), pre=_bond_pre(4), shard_by=[], timeout=1200))
         sp4 = dict(b4)
         sp4.update({"ra": (0, 4), "pa": (0, 4), "ta": (0, 4), "rbd": (0, 3), "pbd": (0, 3), "tbd": (0, 2)})
         units.append(Sel(name="scrg4", func="vp.props.C08:scrg4", params=sp4,
-                         pre=list(pre) + ["has_ts or (ta == 0 and tbd == 0)", "rbd == 0 or (rb & 1)", "pbd == 0 or (pb & 1)", "tbd == 0 or ((rb | pb | tb) & 1)",
-                                          "ra + pa + ta == 0 or rbd + pbd + tbd == 0", "tb in (0, 8, 4) or ta + tbd == 0", "(rb | pb) & 7 != 0"],
+                         pre=_bond_pre(4) + ["has_ts or (ta == 0 and tbd == 0)", "rbd == 0 or r0", "pbd == 0 or p0", "tbd == 0 or r0 or p0 or t0",
+                                             "ra + pa + ta == 0 or rbd + pbd + tbd == 0", "(not t0 and not t1 and not t2) or ta + tbd == 0",
+                                             "r0 or r1 or r2 or p0 or p1 or p2"],
                          shard_by=["has_ts", "ra"], timeout=1500))
     units.append(Sel(name="sn2", func="vp.props.C08:sn2", params={"pr": (0, 2), "pp": (0, 2), "pt": (0, 2), "lig_r": (0, 24), "lig_p": (0, 24)},
                      pre=["lig_r % 5 == 0", "lig_p % 7 == 0"] if tier == "quick" else ["lig_r % 2 == 0"], shard_by=[], timeout=1200))
